@@ -61,6 +61,7 @@ Inductive stmt :=
 | SAttrUpdateItem (t : table) (k : vexp)              (* self._T_attr[k].update(eattr), eattr = the item's own attribute dict *)
 | SRebindIdxFalsy (body : list stmt)                  (* idx = next(self._edge_uid) if not idx else idx ; body = the rest of the block *)
 | SCall (body : list stmt)                            (* self.<another translated method>(<the same members, idx, attr>) *)
+| SCallArg (body : list stmt) (k : vexp)              (* self.<another translated method with one label parameter>(k) *)
 | SNop. (* for <loop> in <i-th bound set>[.difference({minus})]: body *)
 
 Record env := mkEnv { e_args : list lbl; e_flags : list bool; e_loop : lbl; e_attr : attrs; e_loop1 : lbl; e_locals : list (list lbl);
@@ -226,6 +227,11 @@ Fixpoint exec (p : stmt) (en : env) (s : hg) {struct p} : hg * outcome :=
       (fix go (l : list stmt) (s : hg) : hg * outcome :=
          match l with [] => (s, Ok)
          | q :: r => match exec q en s with (s', Ok) => go r s' | y => y end end) body s
+  | SCallArg body k =>
+      let en' := mkEnv [veval k en] [] LNone [] LNone [] [] None LNone [] in
+      (fix go (l : list stmt) (s : hg) : hg * outcome :=
+         match l with [] => (s, Ok)
+         | q :: r => match exec q en' s with (s', Ok) => go r s' | y => y end end) body s
   | SSetMembers t k => if is_none (veval k en) then (s, Raised XGIError)
                        else (set_tab t s (set (veval k en) (e_members en) (tab t s)), Ok)
   | SNop => (s, Ok)
@@ -318,4 +324,16 @@ Definition run_add_simplex (gs : list (bexp * guard_action)) (head : list stmt) 
       | (s1, Ok) => loop (fun s f => run_guarded fgs fbody (mkEnv [] [] LNone [] LNone [] f None LNone []) s) faces s1
       | (s1, o) => (s1, o, O)
       end
+  end.
+
+(* SimplicialComplex.remove_simplex_id(idx): `try: supfaces_ids = self._supfaces_id(self._edge[idx]); <statements>
+   except KeyError as e: raise XGIError(...) from e` - a missing idx is a KeyError at `self._edge[idx]`, IDNotFound is a KeyError;
+   the list _supfaces_id returns is an input (the 0-th bound collection) *)
+Definition keyerror_as_xgierror (r : res) : res :=
+  match r with (s, Raised IDNotFound, w) | (s, Raised KeyError, w) => (s, Raised XGIError, w) | x => x end.
+Definition run_remove_simplex_id (body : list stmt) (idx : lbl) (sup : list lbl) (s : hg) : res :=
+  match get idx (h_edge s) with
+  | None => (s, Raised XGIError, O)
+  | Some _ => keyerror_as_xgierror
+                (match exec_list body (mkEnv [idx] [] LNone [] LNone [sup] [] None LNone []) s with (s', o) => (s', o, O) end)
   end.
